@@ -682,8 +682,22 @@ impl Exporter {
         let records = (0..n)
             .map(|_| {
                 (
-                    t.scope.iter().map(|(_, l)| rng.bbytes(*l as usize)).collect(),
-                    t.opts.iter().map(|(_, l)| rng.bbytes(*l as usize)).collect(),
+                    // a Template scope (type 5) names a template: one of the ids this exporter
+                    // has announced, half the time
+                    t.scope
+                        .iter()
+                        .map(|(ty, l)| {
+                            if *ty == 5 && *l == 2 && !self.v9_t.is_empty() && rng.chance(1, 2) {
+                                let ids: Vec<u16> = self.v9_t.keys().cloned().collect();
+                                rng.pick(&ids).to_be_bytes().to_vec()
+                            } else {
+                                rng.bbytes(*l as usize)
+                            }
+                        })
+                        .collect(),
+                    // option values: typed half the time (NUL-padded names, real addresses, ...),
+                    // boundary-biased octets otherwise
+                    t.opts.iter().map(|(ty, l)| if *l > 0 && rng.chance(1, 2) { gen_value(rng, v9_dt(*ty), *l as usize, cfg) } else { rng.bbytes(*l as usize) }).collect(),
                 )
             })
             .collect();
@@ -1129,6 +1143,29 @@ pub fn fixed_pkt(rng: &mut Rng, version: u16, n: usize) -> FixedPkt {
         if rng.chance(1, 40) {
             let b = *rng.pick(&[0u8, 0xff, 0x01]);
             records.push(vec![b; rl]);
+            continue;
+        }
+        // the reverse direction of the previous flow, as bidirectional traffic exports it: endpoints,
+        // interfaces and ports exchanged, same protocol, everything else its own (half the time the
+        // AS numbers and prefix lengths are exchanged too)
+        if !records.is_empty() && rng.chance(1, 10) {
+            let prev = records[records.len() - 1].clone();
+            let mut r = rng.bytes(rl);
+            let at = |name: &str| layout.iter().find(|f| f.0 == name).map(|f| (f.1, f.2));
+            let mut pairs = vec![("src_addr", "dst_addr"), ("input", "output"), ("src_port", "dst_port"), ("protocol_number", "protocol_number")];
+            if rng.chance(1, 2) {
+                pairs.push(("src_as", "dst_as"));
+                pairs.push(("src_mask", "dst_mask"));
+            }
+            for (a, b) in pairs {
+                if let (Some((oa, wa)), Some((ob, wb))) = (at(a), at(b)) {
+                    if wa == wb {
+                        r[oa..oa + wa].copy_from_slice(&prev[ob..ob + wb]);
+                        r[ob..ob + wb].copy_from_slice(&prev[oa..oa + wa]);
+                    }
+                }
+            }
+            records.push(r);
             continue;
         }
         let mut r = rng.bytes(rl);
